@@ -20,6 +20,7 @@ type fact struct {
 	cond  ssa.Value
 	truth bool
 	fr    *evalFrame
+	at    *ssa.BasicBlock // the block (of the function the facts were asked for) whose branch tests it
 }
 
 // domFacts: the branch conditions that dominate block b in fr.fn.
@@ -32,7 +33,7 @@ func domFacts(fr *evalFrame, b *ssa.BasicBlock) []fact {
 		}
 		for i, s := range d.Succs {
 			if len(s.Preds) == 1 && (s == b || s.Dominates(b)) {
-				out = append(out, fact{iff.Cond, i == 0, fr})
+				out = append(out, fact{iff.Cond, i == 0, fr, d})
 			}
 		}
 	}
@@ -44,7 +45,7 @@ func expandFacts(c *Ctx, in []fact, depth int) []fact {
 	var out []fact
 	for _, f := range in {
 		if un, ok := f.cond.(*ssa.UnOp); ok && un.Op == token.NOT {
-			out = append(out, expandFacts(c, []fact{{un.X, !f.truth, f.fr}}, depth)...)
+			out = append(out, expandFacts(c, []fact{{un.X, !f.truth, f.fr, f.at}}, depth)...)
 			continue
 		}
 		out = append(out, f)
@@ -62,11 +63,14 @@ func expandFacts(c *Ctx, in []fact, depth int) []fact {
 				i := live[0]
 				pred := phi.Block().Preds[i]
 				sub := domFacts(f.fr, pred)
+				for k := range sub {
+					sub[k].at = f.at
+				}
 				if iff, isIf := pred.Instrs[len(pred.Instrs)-1].(*ssa.If); isIf && pred.Succs[0] != pred.Succs[1] {
-					sub = append(sub, fact{iff.Cond, pred.Succs[0] == phi.Block(), f.fr})
+					sub = append(sub, fact{iff.Cond, pred.Succs[0] == phi.Block(), f.fr, f.at})
 				}
 				if _, isK := constBool(phi.Edges[i]); !isK {
-					sub = append(sub, fact{phi.Edges[i], f.truth, f.fr})
+					sub = append(sub, fact{phi.Edges[i], f.truth, f.fr, f.at})
 				}
 				out = append(out, expandFacts(c, sub, depth+1)...)
 			}
@@ -80,7 +84,11 @@ func expandFacts(c *Ctx, in []fact, depth int) []fact {
 		if callee == nil || !inlineLibrary(callee) || callee.Signature.Results().Len() != 1 {
 			continue
 		}
-		out = append(out, helperFacts(c, f.fr, call, callee, f.truth, depth+1)...)
+		hf := helperFacts(c, f.fr, call, callee, f.truth, depth+1)
+		for k := range hf {
+			hf[k].at = f.at
+		}
+		out = append(out, hf...)
 	}
 	return out
 }
@@ -134,7 +142,7 @@ func helperFacts(c *Ctx, parent *evalFrame, call *ssa.Call, callee *ssa.Function
 			}
 			for _, t := range []bool{true, false} {
 				if common[key{v, t}] {
-					fs = append(fs, fact{v, t, fr})
+					fs = append(fs, fact{v, t, fr, nil})
 				}
 			}
 		}
